@@ -33,6 +33,8 @@ class StandardDeviation(Indicator):
         if self.reading_period(self.period + 1, self.input_value, index):
             removed_val = self.reading(self.input_value, index - self.period)
             in_calc_range = True
+        elif self.reading_period(self.period, self.input_value, index):
+            in_calc_range = True
 
         if self.prev_exists(f"{self.name}_data.mean"):
             old_mean = self.prev_reading(f"{self.name}_data.mean")
